@@ -449,8 +449,8 @@ def judge_script(vh, steps, work, tag, cfg, given_recs=None):
         if hang:
             return [(p, r, recs) for r, p in hang], None
         t = timeouts[0]
-        if t["name"] in ("Submit", "SubmitSw"):
-            return [("NoHang", t, recs)], None
+        if t["name"] in ("Submit", "SubmitSw") and t["timeout"].startswith(("hook manifest", "reply of a stopping manager")):
+            return [("NoHang", t, recs)], None      # the submission itself was never taken up / answered
         if attempt == 1:
             recs = None      # a wait on a hook that is not a Submit: a third and last time
             continue
